@@ -283,7 +283,14 @@ class LinearLabelMapper:
             subs = [j for i in subs for j in isotopomers[i]]
             prods = [j for i in prods for j in isotopomers[i]]
             subs, prods = _add_label_influx_or_efflux(subs, prods, label_map)
-            subs = _map_substrates_to_labelmap(subs, label_map)
+            # Product position i is built from substrate position label_map[i], the
+            # same way the LabelMapper reads a label map (and as documented).
+            # _map_substrates_to_labelmap does the inverse, which only is the same for
+            # maps that are their own inverse
+            if len(label_map) != len(subs):
+                msg = f"Labelmap has {len(label_map)} entries for {len(subs)} positions"
+                raise ValueError(msg)
+            subs = [subs[i] for i in label_map]
             for i, (substrate, product) in enumerate(zip(subs, prods, strict=True)):
                 if substrate == product:
                     continue
